@@ -243,6 +243,9 @@ func funcKey(fn *types.Func) string {
 		}
 		switch n := t.(type) {
 		case *types.Named:
+			if n.Obj().Pkg() == nil {
+				return "." + n.Obj().Name() + "." + fn.Name() // universe type (error)
+			}
 			return n.Obj().Pkg().Path() + "." + n.Obj().Name() + "." + fn.Name()
 		case *types.Alias:
 			return pkg + "." + n.Obj().Name() + "." + fn.Name()
